@@ -1,8 +1,9 @@
 (** * C06 property theorems — statements only; proofs live in
     C06/NoninterferenceProofs.v and C06/ResetCompleteProofs.v. *)
-From Coq Require Import List Bool Permutation String.
+From Coq Require Import List Bool Arith NArith Permutation String.
 From Celer Require Import C06.Noninterference C06.NoninterferenceProofs
-  Generated.C06_fields C06.ResetComplete C06.ResetCompleteProofs C06.Example.
+  Generated.C06_fields C06.ResetComplete C06.ResetCompleteProofs C06.Example
+  C06.Reindex C06.ReindexProofs C06.Reseed C06.ReseedProofs.
 Import ListNotations.
 
 (** A kernel launch whose per-slot operations do not observe what the launch
@@ -212,3 +213,169 @@ Theorem C06_errored_path_clean :
    && subset prestep_cleared_temps temp_ok) = true.
 Proof. exact errored_path_clean. Qed.
 Print Assumptions C06_errored_path_clean.
+
+(** ** The re-indexing machinery itself (coq/C06/Reindex.v: fill_sequence,
+    shuffle_track_slots, sort_tracks, count_tracks_per_action,
+    backfill_action_count, get_action_range, TrackExecutor, launches) *)
+
+(** (a) after ANY sequence of re-indexing operations (fill, shuffle, sort /
+    partition under any order and any state contents) track_slots is a
+    permutation of 0..n-1 *)
+Theorem C06_reindex_perm :
+  forall shuf : nat -> list nat, shuf_ok shuf ->
+  forall (ops : list reindex_op) (n : nat) (l : list nat),
+    reindex_steps shuf ops (fill_track_slots n) l ->
+    Permutation (seq 0 n) l /\ NoDup l /\ List.length l = n.
+Proof. exact reindex_perm. Qed.
+Print Assumptions C06_reindex_perm.
+
+(** the specification of std::sort is satisfiable (insertion sort) *)
+Theorem C06_sort_spec_inhabited :
+  forall (key : nat -> aid) (l : list nat), sorted_perm key l (sort_by key l).
+Proof. exact sort_by_spec. Qed.
+Print Assumptions C06_sort_spec_inhabited.
+
+(** (b) count_tracks_per_action + backfill_action_count on sorted thread keys
+    succeed and produce exactly the closed-form table [offset_spec] ... *)
+Theorem C06_count_offsets :
+  forall (act : list aid) (ts : list nat) (A : nat),
+    let ks := thread_keys act ts in
+    ts <> [] -> 1 <= A -> sortedb ks = true -> valid_below A ks ->
+    exists offs, count_tracks_per_action act ts (S A) = Some offs
+                 /\ List.length offs = S A
+                 /\ forall a, a <= A -> nth a offs None = Some (offset_spec ks a).
+Proof. exact count_offsets. Qed.
+Print Assumptions C06_count_offsets.
+
+(** ... which is the prefix sum of the per-action counts when every thread has
+    a valid action id *)
+Theorem C06_offsets_are_prefix_sums :
+  forall (ks : list aid) (a : nat),
+    (forall k, In k ks -> k <> None) ->
+    offset_spec ks a = prefix_sum (fun b => count_eq b ks) a.
+Proof. exact offsets_are_prefix_sums. Qed.
+Print Assumptions C06_offsets_are_prefix_sums.
+
+(** the launch ranges are consecutive (hence pairwise disjoint) intervals ... *)
+Theorem C06_offsets_monotone :
+  forall (ks : list aid) (a : nat), offset_spec ks a <= offset_spec ks (S a).
+Proof. exact offsets_monotone. Qed.
+Print Assumptions C06_offsets_monotone.
+
+(** ... every thread whose action is [a] lies in the range of [a] ... *)
+Theorem C06_action_in_range :
+  forall (ks : list aid) (a t : nat),
+    sortedb ks = true -> t < List.length ks -> nth t ks None = Some a ->
+    offset_spec ks a <= t < offset_spec ks (S a).
+Proof. exact action_in_range. Qed.
+Print Assumptions C06_action_in_range.
+
+(** ... and a range holds only threads of its action or threads with an INVALID
+    action id *)
+Theorem C06_range_only_action :
+  forall (ks : list aid) (a t : nat),
+    sortedb ks = true -> offset_spec ks a <= t < offset_spec ks (S a) ->
+    t < List.length ks /\ (nth t ks None = Some a \/ nth t ks None = None).
+Proof. exact range_only_action. Qed.
+Print Assumptions C06_range_only_action.
+
+(** the ranges are NOT exactly "the threads of the action": slots with an
+    invalid action id trail in the range of the last action present (harmless:
+    the executor's IsStepActionEqual guard skips them, next theorem) *)
+Theorem C06_exact_ranges_refuted :
+  exists act ts A offs a t,
+    sortedb (thread_keys act ts) = true /\ valid_below A (thread_keys act ts) /\
+    count_tracks_per_action act ts (S A) = Some offs /\
+    get_action_range offs a = Some (0, 2) /\ t = 1 /\
+    nth t (thread_keys act ts) None <> Some a.
+Proof. exact exact_ranges_refuted. Qed.
+Print Assumptions C06_exact_ranges_refuted.
+
+(** (b)+(c) the action-range launch of a kernel guarded by IsStepActionEqual{a}
+    visits every slot whose action is [a] exactly once and equals the launch
+    over all threads in the plain (TrackOrder::none) order *)
+Theorem C06_action_range_launch :
+  forall (field value : Type) (action_of : sstate field value -> aid)
+         (k : sstate field value -> sstate field value)
+         (sigma : store field value nat) (ts : list nat) (n A : nat)
+         (offs : list (option nat)) (a : nat),
+    let ks := store_keys action_of sigma ts in
+    let ck := cond_kernel (is_action_equal action_of a) k in
+    0 < n -> Permutation (seq 0 n) ts -> sortedb ks = true ->
+    List.length offs = S A -> (forall b, b <= A -> nth b offs None = Some (offset_spec ks b)) ->
+    a < A ->
+    exists st, launch_action_range ck ts offs a sigma = Some st
+      /\ NoDup (range_slots ts (offset_spec ks a) (offset_spec ks (S a)))
+      /\ (forall s, s < n -> action_of (sigma s) = Some a ->
+                    In s (range_slots ts (offset_spec ks a) (offset_spec ks (S a))))
+      /\ forall i, st i = launch_core ck [] n sigma i.
+Proof. exact action_range_launch. Qed.
+Print Assumptions C06_action_range_launch.
+
+(** (c) the host launch over all threads is independent of the order policy *)
+Theorem C06_launch_order_independent :
+  forall (field value : Type) (shuf : nat -> list nat), shuf_ok shuf ->
+  forall (ops : list reindex_op) (n : nat) (ts : list nat)
+         (k : sstate field value -> sstate field value) (sigma : store field value nat) (i : nat),
+    0 < n -> reindex_steps shuf ops (fill_track_slots n) ts ->
+    launch_core k ts n sigma i = launch_core k [] n sigma i.
+Proof. exact launch_order_independent. Qed.
+Print Assumptions C06_launch_order_independent.
+
+(** end to end: any re-indexing history, then SortTracksAction (sort by the
+    action id, count, back-fill), then the launch of action [a] by range or over
+    all threads: all equal the plain-order launch *)
+Theorem C06_sorted_action_launch :
+  forall (field value : Type) (shuf : nat -> list nat), shuf_ok shuf ->
+  forall (ops : list reindex_op) (n : nat) (ts0 ts : list nat) (A : nat)
+         (action_of : sstate field value -> aid) (k : sstate field value -> sstate field value)
+         (sigma : store field value nat) (a : nat),
+    0 < n -> 1 <= A -> a < A ->
+    reindex_steps shuf ops (fill_track_slots n) ts0 ->
+    sorted_perm (fun s => action_of (sigma s)) ts0 ts ->
+    (forall s b, s < n -> action_of (sigma s) = Some b -> b < A) ->
+    let act := map (fun s => action_of (sigma s)) (seq 0 n) in
+    let ck := cond_kernel (is_action_equal action_of a) k in
+    exists offs st,
+      count_tracks_per_action act ts (S A) = Some offs
+      /\ launch_action_range ck ts offs a sigma = Some st
+      /\ (forall i, st i = launch_core ck [] n sigma i)
+      /\ (forall i, launch_core ck ts n sigma i = launch_core ck [] n sigma i).
+Proof. exact sorted_action_launch. Qed.
+Print Assumptions C06_sorted_action_launch.
+
+(** non-vacuity: a concrete run fill -> shuffle -> partition by status -> sort by
+    along-step action, its offsets table and its launch *)
+Theorem C06_reindex_examples :
+  reindex_steps ex_shuf [OpShuffle; OpSort reindex_status ex_state; OpSort reindex_along_step_action ex_state]
+                (fill_track_slots 5) [2; 4; 0; 3; 1]
+  /\ shuf_ok ex_shuf
+  /\ count_tracks_per_action (st_along ex_state) [2; 4; 0; 3; 1] 4 = Some [Some 0; Some 1; Some 1; Some 5].
+Proof. exact (conj ex_reindex_steps (conj ex_shuf_ok (proj1 ex_count))). Qed.
+Print Assumptions C06_reindex_examples.
+
+(** ** reseed_rng (coq/C06/Reseed.v): the generators after reseeding are a
+    function of (seed, event, slot count) only -- the stream id of the state that
+    transports the event is not an input *)
+Theorem C06_reseed_independent_of_stream :
+  forall seed size event s1 s2 : N,
+    reseed_rng seed size s1 event = reseed_rng seed size s2 event.
+Proof. exact reseed_independent_of_stream. Qed.
+Print Assumptions C06_reseed_independent_of_stream.
+
+Theorem C06_reseed_covers_all_slots :
+  forall seed size stream event : N,
+    List.length (reseed_rng seed size stream event) = N.to_nat size.
+Proof. exact reseed_covers_all_slots. Qed.
+Print Assumptions C06_reseed_covers_all_slots.
+
+(** distinct (event, slot) pairs get distinct subsequences while the 64-bit
+    product does not wrap *)
+Theorem C06_reseed_subsequences_distinct :
+  forall seed size stream e1 e2 i1 i2 : N,
+    (i1 < size)%N -> (i2 < size)%N ->
+    ((e1 + 1) * size <= ull_max)%N -> ((e2 + 1) * size <= ull_max)%N ->
+    ri_subsequence (reseed_init seed size stream e1 i1) = ri_subsequence (reseed_init seed size stream e2 i2) ->
+    e1 = e2 /\ i1 = i2.
+Proof. exact reseed_subsequences_distinct. Qed.
+Print Assumptions C06_reseed_subsequences_distinct.
